@@ -109,6 +109,19 @@ Theorem C08_spec_meaning : forall c ranges t,
 Proof. exact tp_spec_inside_iff. Qed.
 Print Assumptions C08_spec_meaning.
 
+(* the calendar oracle run over implementation traces accepts what the model computes for a zone without
+   transitions, outside the recorded finding F-C08-b (hypothesis = its negated signature at every probe) *)
+Theorem C08_calendar_oracle_accepts_model_partial : forall c ranges prefer incs excs b e clear probes pre,
+  tp_ranges_bounded ranges ->
+  let off := fun _ : Z => c in
+  let mk := fun l : Z => l - c in
+  let post := tp_update_region true (tp_script_func off mk ranges) prefer incs excs b e clear pre in
+  (forall t d, In t probes -> tp_upd_begin b clear pre <= t < e ->
+               d < tp_local_day off (tp_upd_begin b clear pre) -> tp_day_covers off mk false ranges d t = false) ->
+  tp_cal_step_ok c [] ranges prefer incs excs b e clear probes pre post (map (tp_is_inside post) probes) = None.
+Proof. exact tp_cal_step_ok_model_const. Qed.
+Print Assumptions C08_calendar_oracle_accepts_model_partial.
+
 (* F-C08-b (known): "friday" = "22:00-06:00", window computed afresh from Saturday 03:00 (Europe/Berlin):
    Saturday 03:00 is inside by the statement, not by the produced segments *)
 Theorem C08_wrap_refuted :
